@@ -299,7 +299,7 @@ func judgeGen(c genCase) (o genOutcome) {
 			}
 		}
 	}
-	checkType := func(what string, x xGoType, t dType) error {
+	checkType := func(x xGoType, t dType) error {
 		want := x.Kind + "|" + x.File + "|" + x.Name
 		who := fmt.Sprintf("Go type %s (%s %s of %s)", t.Key, x.Kind, x.Name, x.File)
 		switch {
@@ -379,7 +379,7 @@ func judgeGen(c genCase) (o genOutcome) {
 				vt.Class("gen_enum_go_type_not_identified")
 				continue
 			}
-			if err := checkType("enum", x, cands[0]); err != nil {
+			if err := checkType(x, cands[0]); err != nil {
 				return fail("%v", err)
 			}
 			o.enums++
@@ -394,7 +394,7 @@ func judgeGen(c genCase) (o genOutcome) {
 		if !ok {
 			return harnessErr("driver reports nothing for %s", ti.Key)
 		}
-		if err := checkType("struct", x, t); err != nil {
+		if err := checkType(x, t); err != nil {
 			return fail("%v", err)
 		}
 		o.types++
@@ -691,9 +691,15 @@ func lookupQueries(exp map[string]*xFile) (qs []interface{}, wants []lookupWant,
 
 // ---------- generator ----------
 
-// options that change how the Go code looks, not what the IDL says
+// options that change how the Go code looks, not what the IDL says.
+// ORACLE: reorder_fields is left out: it sorts the fields of every struct (in
+// the syntax tree the descriptor is built from), so that the descriptor lists
+// them in the order of the Go struct — which FieldDescriptor.GetInstanceValue
+// relies on (it indexes the Go struct by the field's position in the
+// descriptor).  The order then is not the IDL's by design; typed_enum_string
+// is left out because String() identifies the enum Go types here.
 var genOptions = []string{"naming_style=golint", "naming_style=apache", "ignore_initialisms", "gen_setter", "gen_deep_equal", "compatible_names",
-	"keep_unknown_fields", "enum_as_int_32", "with_field_mask", "reorder_fields", "nil_safe", "json_enum_as_text", "enum_marshal", "frugal_tag",
+	"keep_unknown_fields", "enum_as_int_32", "with_field_mask", "nil_safe", "json_enum_as_text", "enum_marshal", "frugal_tag",
 	"gen_type_meta", "no_processor", "skip_empty", "reserve_comments", "get_enum_annotation", "gen_db_tag", "validate_set=false"}
 
 func genGenSpec(rt *rapid.T) (string, []string) {
@@ -750,7 +756,15 @@ func goPkgDir(f *idl.File) string {
 // finding (exactly the shapes the in-process half excludes) or one that the Go
 // backend cannot lay out (two files with one base name in one package).
 func genGenerated(rt *rapid.T) (c genCase, s shape, p *idl.Program, opts []string, ok bool) {
-	p = idl.Gen(rt, genCfg(rt))
+	cfg := genCfg(rt)
+	// the point of this half is the registry that several packages fill together:
+	// a program with a single reachable file is redrawn (up to three times)
+	for tries := 0; tries < 4; tries++ {
+		p = idl.Gen(rt, cfg)
+		if len(reachable(p)) >= 2 {
+			break
+		}
+	}
 	gen, opts := genGenSpec(rt)
 	files := reachable(p)
 	s = survey(files)
